@@ -54,6 +54,7 @@ var invalidHeaderFields = [...]string{
 func parseHeaders(decodeFn qpack.DecodeFunc, isRequest bool, sizeLimit int, headerFields *[]qpack.HeaderField) (header, error) {
 	hdr := header{Headers: make(http.Header)}
 	var readFirstRegularHeader, readContentLength bool
+	var readPseudoHeader [6]bool // :path, :method, :authority, :protocol, :scheme, :status
 	var contentLengthStr string
 	for {
 		h, err := decodeFn()
@@ -81,34 +82,36 @@ func parseHeaders(decodeFn qpack.DecodeFunc, isRequest bool, sizeLimit int, head
 				// all pseudo headers must appear before regular header fields, see section 4.3 of RFC 9114
 				return header{}, fmt.Errorf("received pseudo header %s after a regular header field", h.Name)
 			}
-			var isResponsePseudoHeader bool  // pseudo headers are either valid for requests or for responses
-			var isDuplicatePseudoHeader bool // pseudo headers are allowed to appear exactly once
+			var isResponsePseudoHeader bool // pseudo headers are either valid for requests or for responses
+			// pseudo headers are allowed to appear exactly once (an empty value counts as an appearance)
+			var idx int
 			switch h.Name {
 			case ":path":
-				isDuplicatePseudoHeader = hdr.Path != ""
+				idx = 0
 				hdr.Path = h.Value
 			case ":method":
-				isDuplicatePseudoHeader = hdr.Method != ""
+				idx = 1
 				hdr.Method = h.Value
 			case ":authority":
-				isDuplicatePseudoHeader = hdr.Authority != ""
+				idx = 2
 				hdr.Authority = h.Value
 			case ":protocol":
-				isDuplicatePseudoHeader = hdr.Protocol != ""
+				idx = 3
 				hdr.Protocol = h.Value
 			case ":scheme":
-				isDuplicatePseudoHeader = hdr.Scheme != ""
+				idx = 4
 				hdr.Scheme = h.Value
 			case ":status":
-				isDuplicatePseudoHeader = hdr.Status != ""
+				idx = 5
 				hdr.Status = h.Value
 				isResponsePseudoHeader = true
 			default:
 				return header{}, fmt.Errorf("unknown pseudo header: %s", h.Name)
 			}
-			if isDuplicatePseudoHeader {
+			if readPseudoHeader[idx] {
 				return header{}, fmt.Errorf("duplicate pseudo header: %s", h.Name)
 			}
+			readPseudoHeader[idx] = true
 			if isRequest && isResponsePseudoHeader {
 				return header{}, fmt.Errorf("invalid request pseudo header: %s", h.Name)
 			}
